@@ -341,10 +341,17 @@ Proof.
     cbn [contents forallb]. rewrite (is_str_has_trait T inner s f Hi), Hc. reflexivity.
 Qed.
 
+(* Known finding C19-F1 / C19-F2: an item that holds, by value or through Option / Box / Vec / map /
+   array / tuple, an array longer than 32 or a tuple longer than 12 (16 for serde) - the base derives
+   cannot be satisfied there (serde / std stop implementing the traits at those sizes). *)
+Definition Known_unsupported_aggregate (T : space) (e : entry) : Prop :=
+  exists serde fuel i, In i (contents (e_det e)) /\ gap_inside serde T fuel i = true.
+
 Theorem builtin_derivable_entry : forall T e x fuel,
+  ~ Known_unsupported_aggregate T e ->
   In x (builtin_derives T e) -> derivable_entry x T (S fuel) e = true.
 Proof.
-  intros T e x fuel Hx. unfold derivable_entry. pose proof Hx as Hx0.
+  intros T e x fuel Hknown Hx. unfold derivable_entry. pose proof Hx as Hx0.
   unfold builtin_derives in Hx. destruct (kind_of T (e_det e)) as [k|] eqn:Hk; [|destruct Hx].
   pose proof (lift_kinds _ kinds_builtin_derivable k) as H. cbn beta in H.
   rewrite forallb_forall in H. specialize (H x Hx).
@@ -352,15 +359,67 @@ Proof.
   apply andb_true_iff. split.
   - apply subset_In. intros y Hy. rewrite subset_In in Hsup.
     apply builtin_in_derives. unfold builtin_derives. rewrite Hk. apply Hsup. exact Hy.
-  - destruct (always_derivable x); [reflexivity|]. cbn [orb] in Hc.
+  - destruct (always_derivable x).
+    + apply forallb_forall. intros i Hi.
+      destruct (gap_inside (is_serde_trait x) T (S fuel) i) eqn:G; [|reflexivity].
+      exfalso. apply Hknown. exists (is_serde_trait x), (S fuel), i. split; assumption.
+    + cbn [orb] in Hc.
+      destruct (content_ok_sound T (e_det e) k x fuel Hk Hc) as (s & Hs & Hf).
+      rewrite Hs. exact Hf.
+Qed.
+
+(* the comparison / hash / Copy extensions need no exclusion: they only land on items whose
+   contents are empty or a String *)
+Theorem extension_derivable_entry : forall T e x fuel,
+  In x (builtin_derives T e) -> always_derivable x = false -> derivable_entry x T (S fuel) e = true.
+Proof.
+  intros T e x fuel Hx Ha. unfold derivable_entry.
+  unfold builtin_derives in Hx. destruct (kind_of T (e_det e)) as [k|] eqn:Hk; [|destruct Hx].
+  pose proof (lift_kinds _ kinds_builtin_derivable k) as H. cbn beta in H.
+  rewrite forallb_forall in H. specialize (H x Hx).
+  apply andb_true_iff in H. destruct H as [Hsup Hc].
+  apply andb_true_iff. split.
+  - apply subset_In. intros y Hy. rewrite subset_In in Hsup.
+    apply builtin_in_derives. unfold builtin_derives. rewrite Hk. apply Hsup. exact Hy.
+  - rewrite Ha in *. cbn [orb] in Hc.
     destruct (content_ok_sound T (e_det e) k x fuel Hk Hc) as (s & Hs & Hf).
     rewrite Hs. exact Hf.
 Qed.
 
 Theorem builtin_derives_derivable : forall T i e x fuel,
+  ~ Known_unsupported_aggregate T e ->
   get T i = Some e -> In x (builtin_derives T e) -> derivable x T (S fuel) i = true.
 Proof.
-  intros T i e x fuel Hg Hx. unfold derivable. rewrite Hg. apply builtin_derivable_entry. exact Hx.
+  intros T i e x fuel Hk Hg Hx. unfold derivable. rewrite Hg. apply builtin_derivable_entry; assumption.
+Qed.
+
+(* witnesses: the exclusion is not vacuous and not wider than the defect *)
+Definition known_settings : settings := mkSettings None [] false (u "HashMap").
+Definition long_array_space : space :=
+  mkSpace [ (1%N, mkEntry (DNewtype (u "A") None 2%N CNone) [])
+          ; (2%N, mkEntry (DArray 3%N 33%N) []); (3%N, mkEntry (DInteger (u "i64")) []) ]
+          4%N known_settings false false false false [].
+Definition long_tuple_space : space :=
+  mkSpace [ (1%N, mkEntry (DNewtype (u "T") None 2%N CNone) [])
+          ; (2%N, mkEntry (DTuple (repeat 3%N 13)) []); (3%N, mkEntry (DInteger (u "i64")) []) ]
+          4%N known_settings false false false false [].
+
+Lemma known_long_array_fails :
+  exists T i e x, get T i = Some e /\ Known_unsupported_aggregate T e /\
+                  In x (builtin_derives T e) /\ forall fuel, derivable x T (S (S fuel)) i = false.
+Proof.
+  exists long_array_space, 1%N, (mkEntry (DNewtype (u "A") None 2%N CNone) []), (u "::serde::Serialize").
+  split; [reflexivity|]. split; [exists true, 2%nat, 2%N; split; [left; reflexivity | vm_compute; reflexivity]|].
+  split; [vm_compute; tauto|]. intro fuel. reflexivity.
+Qed.
+
+Lemma known_long_tuple_fails :
+  exists T i e x, get T i = Some e /\ Known_unsupported_aggregate T e /\
+                  In x (builtin_derives T e) /\ forall fuel, derivable x T (S (S fuel)) i = false.
+Proof.
+  exists long_tuple_space, 1%N, (mkEntry (DNewtype (u "T") None 2%N CNone) []), (u "Debug").
+  split; [reflexivity|]. split; [exists false, 2%nat, 2%N; split; [left; reflexivity | vm_compute; reflexivity]|].
+  split; [vm_compute; tauto|]. intro fuel. reflexivity.
 Qed.
 
 (* with no user-supplied derives the whole derive list is the built-in one *)
@@ -412,8 +471,8 @@ Theorem cmp_hash_never_on_float : forall T e x,
   forall i, In i (contents (e_det e)) -> forall fuel, float_inside T fuel i = false.
 Proof.
   intros T e x Hx Hb i Hi fuel. destruct fuel as [|f]; [reflexivity|].
-  pose proof (builtin_derivable_entry T e (u x) f Hb) as Hd.
   destruct (cmp_hash_straits x Hx) as (Ha & s & Hs & Hf).
+  pose proof (extension_derivable_entry T e (u x) f Hb Ha) as Hd.
   unfold derivable_entry in Hd. destruct (kind_of T (e_det e)); [|discriminate].
   apply andb_true_iff in Hd. destruct Hd as [_ Hd]. rewrite Ha, Hs in Hd.
   rewrite forallb_forall in Hd. apply (has_trait_no_float T (S f) s Hf i). apply Hd. exact Hi.
